@@ -59,6 +59,19 @@ Theorem C11_first_match_run : forall ch p p' t t',
 Proof. exact C11Run.C11_first_match_run. Qed.
 Print Assumptions C11_first_match_run.
 
+(* ... and the first TOKEN has the same type (for a token whose type is looked up in the keyword dictionaries the
+   matched text is the same: those rules cannot consume a white-space character, C11_askw_free) *)
+Theorem C11_first_token_run : forall ch p p' t t',
+  In ch all_letters -> prel RSp p p' -> RS RSp (ch :: t) (ch :: t') ->
+  tz_quiet (mkSt p (ch :: t)) -> tz_quiet (mkSt p' (ch :: t')) ->
+  match first_tok (mkSt p (ch :: t)), first_tok (mkSt p' (ch :: t')) with
+  | Some tk, Some tk' => fst tk = fst tk'
+  | None, None => True
+  | _, _ => False
+  end.
+Proof. exact C11Run.C11_first_token_run. Qed.
+Print Assumptions C11_first_token_run.
+
 (* one run re-spelled (ORDER<R>BY... and ORDER<R'>BY...), the rest of the text kept *)
 Theorem C11_first_match_respell : forall ch w R R' u p,
   In ch all_letters -> forallb (fun c => negb (inS RSp c)) w = true ->
